@@ -1,1 +1,390 @@
-import Cstl.Conc.Model
+import Cstl.Conc.Race
+import Cstl.Conc.Progress
+/-
+C06 — reference counting is correct under every thread interleaving.
+
+Property theorems (and non-vacuity examples) about the micro-step transition
+system of `Cstl/Conc/Model.lean`, for ANY number of threads, ANY programs and
+ANY schedule: `Reachable cfg s` / `Exec cfg tr s` quantify over all initial
+reference configurations `cfg` and all interleavings of the atomic steps.
+
+Trusted assumption (not proved here): the theorems are about sequentially
+consistent interleavings of the micro-steps.  Every atomic operation of
+memory.c is a seq_cst operation and `race_free` below shows that the model has
+no data race in the SC semantics; by the C11 DRF-SC guarantee every real
+execution of the library is then one of these interleavings.  The granularity
+(one micro-step per atomic operation) is tied to the source by the per-step
+trace comparison of tools/props/C06.py.
+-/
+namespace Cstl.Conc
+
+/-! ## counting invariant -/
+
+/-- hard = Σ per-thread contributions determined by the pc, likewise soft; the temporary bump of a
+failing lock is unique, held only by the flag holder and only when no owner is left; the memory is
+live iff an established owner exists or a thread is between its `hard--` that returned 1 and the
+clear; the bookkeeping block is live iff a reference exists or a thread is between its `soft--`
+that returned 1 and the free. -/
+theorem counting_invariant {cfg : Cfg} {s : State} (h : Reachable cfg s) :
+    s.g.hard = tot hc s.ts ∧ s.g.soft = tot sc s.ts ∧
+    tot hold s.ts = (if s.g.flag then 1 else 0) ∧ tot bump s.ts ≤ tot hold s.ts ∧
+    (0 < tot bump s.ts → tot ec s.ts = 0) ∧
+    (s.g.mem = true ↔ 0 < tot ec s.ts ∨ 0 < tot da s.ts) ∧
+    (s.g.data = true ↔ 0 < tot sc s.ts ∨ 0 < tot dw s.ts) := by
+  have i := h.inv
+  refine ⟨i.hard, i.soft, i.flag, tot_bump_le _, i.bumpE, ?_, ?_⟩
+  · rw [i.mem]
+    have := i.sawH; have := i.sawH_le; have := i.sawH_iff
+    constructor <;> intro _ <;> omega
+  · rw [i.data]
+    have := i.sawS; have := i.sawS_le; have := i.sawS_iff
+    constructor <;> intro _ <;> omega
+
+/-- on every schedule at most one `hard--` of a reset returns 1 and at most one `soft--` returns 1 -/
+theorem saw_one_at_most_once {cfg : Cfg} {tr : List (Nat × Label)} {s : State} (h : Exec cfg tr s) :
+    countSaw1 .decHard tr ≤ 1 ∧ countSaw1 .decSoft tr ≤ 1 := by
+  have i := h.inv
+  have e := h.events
+  have := i.sawH_le; have := i.sawS_le
+  omega
+
+/-- the memory is cleared at most once and freed at most once (after its clear), the bookkeeping block
+is freed at most once — counted on the trace of any schedule, together with what happened before the
+threads started (`init`: 1 iff the configuration has no owner / no reference at all) -/
+theorem clear_free_at_most_once {cfg : Cfg} {tr : List (Nat × Label)} {s : State} (h : Exec cfg tr s) :
+    (init cfg).g.clears + countAct .clearCb tr ≤ 1 ∧
+    (init cfg).g.freesMem + countAct .freeMem tr ≤ (init cfg).g.clears + countAct .clearCb tr ∧
+    (init cfg).g.freesData + countAct .freeData tr ≤ 1 := by
+  have i := h.inv
+  have e := h.events
+  have := i.sawH; have := i.sawH_le; have := i.clr; have := i.sawS; have := i.sawS_le
+  omega
+
+/-- the step that clears the memory is taken when no established owner remains, and none appears later -/
+theorem clear_only_without_owner {cfg : Cfg} {s : State} (h : Reachable cfg s) (hc : 0 < s.g.clears ∨ 0 < tot da s.ts) :
+    tot ec s.ts = 0 ∧ ∀ t ∈ s.ts, ∀ j, slot t.sh j = false := by
+  have i := h.inv
+  have hE : tot ec s.ts = 0 := by
+    have := i.sawH; have := i.sawH_le; have := i.sawH_iff
+    omega
+  refine ⟨hE, fun t ht j => ?_⟩
+  have h0 := tot_eq_zero hE t ht
+  cases hs : slot t.sh j with
+  | false => rfl
+  | true =>
+    have := slot_pos hs
+    unfold ec at h0
+    omega
+
+
+/-! ## exactly once, and only when nothing is left -/
+
+/-- the free of the bookkeeping block happens when no reference remains -/
+theorem data_free_only_without_reference {cfg : Cfg} {s : State} (h : Reachable cfg s)
+    (hc : 0 < s.g.freesData ∨ 0 < tot dw s.ts) :
+    tot sc s.ts = 0 ∧ ∀ t ∈ s.ts, (∀ j, slot t.sh j = false) ∧ (∀ w, slot t.wk w = false) := by
+  have i := h.inv
+  have hE : tot sc s.ts = 0 := by
+    have := i.sawS; have := i.sawS_le; have := i.sawS_iff
+    omega
+  refine ⟨hE, fun t ht => ⟨fun j => ?_, fun w => ?_⟩⟩
+  · have h0 := tot_eq_zero hE t ht
+    cases hs : slot t.sh j with
+    | false => rfl
+    | true => have := slot_pos hs; unfold sc at h0; omega
+  · have h0 := tot_eq_zero hE t ht
+    cases hs : slot t.wk w with
+    | false => rfl
+    | true => have := slot_pos hs; unfold sc at h0; omega
+
+/-- when every thread has finished: the memory has been cleared and freed exactly once iff no owner
+object is left (and not at all otherwise), the bookkeeping block has been freed exactly once iff no
+pointer object references it (and not at all otherwise) — nothing leaks, nothing is freed early -/
+theorem finished_exactly_once {cfg : Cfg} {s : State} (h : Reachable cfg s)
+    (hfin : ∀ t ∈ s.ts, t.finished = true) :
+    (tot (fun t => cnt t.sh) s.ts = 0 → s.g.clears = 1 ∧ s.g.freesMem = 1 ∧ s.g.mem = false) ∧
+    (0 < tot (fun t => cnt t.sh) s.ts → s.g.clears = 0 ∧ s.g.freesMem = 0 ∧ s.g.mem = true) ∧
+    (tot (fun t => cnt t.sh + cnt t.wk) s.ts = 0 → s.g.freesData = 1 ∧ s.g.data = false) ∧
+    (0 < tot (fun t => cnt t.sh + cnt t.wk) s.ts → s.g.freesData = 0 ∧ s.g.data = true) := by
+  have i := h.inv
+  have e1 : tot ec s.ts = tot (fun t => cnt t.sh) s.ts := tot_congr (fun t ht => (finished_contrib (hfin t ht)).1)
+  have e2 : tot sc s.ts = tot (fun t => cnt t.sh + cnt t.wk) s.ts :=
+    tot_congr (fun t ht => (finished_contrib (hfin t ht)).2.1)
+  have e3 : tot da s.ts = 0 := tot_zero (fun t ht => (finished_contrib (hfin t ht)).2.2.1)
+  have e4 : tot db s.ts = 0 := tot_zero (fun t ht => (finished_contrib (hfin t ht)).2.2.2.1)
+  have e5 : tot dw s.ts = 0 := tot_zero (fun t ht => (finished_contrib (hfin t ht)).2.2.2.2)
+  have := i.sawH; have := i.sawH_le; have := i.sawH_iff; have := i.clr
+  have := i.sawS; have := i.sawS_le; have := i.sawS_iff
+  have hm := i.mem; have hd := i.data
+  rw [← e1, ← e2]
+  refine ⟨fun h0 => ?_, fun h0 => ?_, fun h0 => ?_, fun h0 => ?_⟩
+  · have hc : s.g.clears = 1 := by omega
+    refine ⟨hc, by omega, ?_⟩
+    cases hmm : s.g.mem with
+    | false => rfl
+    | true => have := hm.mp hmm; omega
+  · have hc : s.g.clears = 0 := by omega
+    exact ⟨hc, by omega, hm.mpr hc⟩
+  · have hc : s.g.freesData = 1 := by omega
+    refine ⟨hc, ?_⟩
+    cases hmm : s.g.data with
+    | false => rfl
+    | true => have := hd.mp hmm; omega
+  · have hc : s.g.freesData = 0 := by omega
+    exact ⟨hc, hd.mpr hc⟩
+
+/-- no micro-step ever touches a block that is no longer live (what ASan would report) -/
+theorem no_bad_access {cfg : Cfg} {s : State} (h : Reachable cfg s) : s.g.bad = 0 := h.inv.bad
+
+/-- an owner (a shared pointer object that references the block — in particular one obtained by a
+successful lock) keeps the memory live -/
+theorem owner_keeps_memory_live {cfg : Cfg} {s : State} (h : Reachable cfg s) {t : Thread} (ht : t ∈ s.ts)
+    {j : Nat} (hj : slot t.sh j = true) : s.g.mem = true ∧ s.g.data = true := by
+  have i := h.inv
+  have hp := slot_pos hj
+  have h1 : 0 < tot ec s.ts := tot_pos_of_mem ht (by unfold ec; omega)
+  have h2 : 0 < tot sc s.ts := tot_pos_of_mem ht (by unfold sc; omega)
+  have := i.sawH; have := i.sawH_le; have := i.sawH_iff; have := i.clr
+  have := i.sawS; have := i.sawS_le; have := i.sawS_iff
+  exact ⟨i.mem.mpr (by omega), i.data.mpr (by omega)⟩
+
+/-- a lock whose increment saw a non-zero count has obtained live memory -/
+theorem lock_success_live {cfg : Cfg} {s : State} (h : Reachable cfg s) {t : Thread} (ht : t ∈ s.ts)
+    {w j : Nat} (hpc : t.pc = .l3 w j) : s.g.mem = true := by
+  have i := h.inv
+  have h1 : 0 < tot ec s.ts := tot_pos_of_mem ht (by simp [ec, hpc, xh, xb])
+  have := i.sawH; have := i.sawH_le; have := i.sawH_iff
+  exact i.mem.mpr (by omega)
+
+/-- the `use` step is taken only on live memory: a thread whose next step is the use of the memory
+through its owner `j` finds memory and bookkeeping block live -/
+theorem use_sees_live_memory {cfg : Cfg} {s : State} (h : Reachable cfg s) {t : Thread} (ht : t ∈ s.ts)
+    {j : Nat} (hpc : t.pc = .u j) : s.g.mem = true ∧ s.g.data = true := by
+  have hwf := h.inv.wf t ht
+  unfold WF at hwf
+  simp only [hpc] at hwf
+  exact owner_keeps_memory_live h ht hwf
+
+
+/-! ## no use after destroy, no access to the freed bookkeeping block -/
+
+/-- an owner stays an owner until its own thread resets it: steps of other threads do not change a
+thread, and the only step of the thread itself that clears object `j` is the `hard--` of its reset -/
+theorem owner_until_own_reset {s s' : State} {tid : Nat} {l : Label} (hs : stepL s tid = some (l, s'))
+    {i : Nat} {t : Thread} (hi : s.ts[i]? = some t) {j : Nat} (hj : slot t.sh j = true) :
+    (∃ t', s'.ts[i]? = some t' ∧ slot t'.sh j = true) ∨ (i = tid ∧ ∃ k, t.pc = .r1 j k) := by
+  by_cases hit : i = tid
+  · subst hit
+    obtain ⟨t0, t', h0, hst, hts⟩ := stepL_decomp hs
+    rw [hi] at h0; cases h0
+    have hlen : i < s.ts.length := by
+      rcases Nat.lt_or_ge i s.ts.length with h | h
+      · exact h
+      · rw [List.getElem?_eq_none h] at hi; cases hi
+    have hget : s'.ts[i]? = some t' := by rw [hts]; simp [hlen]
+    by_cases hj' : slot t'.sh j = true
+    · exact .inl ⟨t', hget, hj'⟩
+    · exact .inr ⟨rfl, stepT_slot_cleared hst hj hj'⟩
+  · left
+    exact ⟨t, by rw [stepL_frame hs hit]; exact hi, hj⟩
+
+/-- every micro-step that touches the bookkeeping block is taken by a thread that still holds a
+contribution to `soft` (or is the unique thread that took the last one and is about to free the
+block), and the block is live -/
+theorem bookkeeping_access_by_reference_holder {cfg : Cfg} {s : State} (h : Reachable cfg s) {tid : Nat}
+    {t : Thread} (hts : s.ts[tid]? = some t) (hv : t.pc.visible = true) :
+    (0 < sc t ∨ (0 < dw t ∧ tot dw s.ts = 1 ∧ tot sc s.ts = 0)) ∧ s.g.data = true := by
+  have i := h.inv
+  refine ⟨?_, i.data_of_visible hts hv⟩
+  rcases (i.wf t (List.mem_of_getElem? hts)).refs hv with h1 | h1
+  · exact .inl h1
+  · right
+    have := tot_ge dw hts
+    have := i.sawS; have := i.sawS_le; have := i.sawS_iff
+    exact ⟨h1, by omega, by omega⟩
+
+/-! ## data-race freedom in the sequentially consistent model -/
+
+/-- whenever two different threads are each about to take a micro-step, the accesses of the two steps
+do not conflict (same location, one of them a plain write or a plain access against an atomic):
+in particular nothing is concurrent with the clear / free of the memory or with the free of the
+bookkeeping block -/
+
+theorem race_free {cfg : Cfg} {s : State} (h : Reachable cfg s) {a b : Nat} {t u : Thread} (hab : a ≠ b)
+    (ha : s.ts[a]? = some t) (hb : s.ts[b]? = some u) :
+    ∀ x ∈ accesses t.pc, ∀ y ∈ accesses u.pc, ¬ conflict x y := by
+  have i := h.inv
+  have f1 := @freer_alone s i a b t u hab ha hb
+  have f2 := @freer_alone s i b a u t (Ne.symm hab) hb ha
+  have d1 := @destroyer_alone s i a b t u hab ha hb
+  have d2 := @destroyer_alone s i b a u t (Ne.symm hab) hb ha
+  cases hpt : t.pc <;> cases hpu : u.pc
+  all_goals first
+    | (intro x hx y hy
+       simp only [accesses, List.mem_cons, List.not_mem_nil, or_false] at hx hy
+       done)
+    | (intro x hx y hy
+       simp only [accesses, List.mem_cons, List.not_mem_nil, or_false] at hx hy
+       rcases hx with rfl | rfl | rfl | rfl <;> rcases hy with rfl | rfl | rfl | rfl <;>
+         simp [conflict]
+       done)
+    | (exfalso; have hh := f1 hpt; simp [hpu, Pc.visible] at hh; done)
+    | (exfalso; have hh := f2 hpu; simp [hpt, Pc.visible] at hh; done)
+    | (exfalso; have hh := d1 (.inl hpt); simp [hpu] at hh; done)
+    | (exfalso; have hh := d1 (.inr hpt); simp [hpu] at hh; done)
+    | (exfalso; have hh := d2 (.inl hpu); simp [hpt] at hh; done)
+    | (exfalso; have hh := d2 (.inr hpu); simp [hpt] at hh; done)
+
+
+/-! ## progress -/
+
+/-- the flag is held exactly while one thread is between its successful test-and-set and its flag
+clear, and that thread is never blocked -/
+theorem lock_holder_enabled {cfg : Cfg} {s : State} (h : Reachable cfg s) :
+    (s.g.flag = true → ∃ (tid : Nat) (t : Thread), s.ts[tid]? = some t ∧ 0 < hold t) ∧
+    (∀ (tid : Nat) (t : Thread), s.ts[tid]? = some t → 0 < hold t → s.g.flag = true ∧ NonStutterEnabled s tid) := by
+  have i := h.inv
+  refine ⟨fun hf => ?_, fun tid t hts hh => ⟨?_, holder_enabled hts hh⟩⟩
+  · have hF := i.flag
+    rw [hf] at hF
+    simp only [if_true] at hF
+    obtain ⟨k, u, hu, hpos⟩ := exists_of_tot_pos (f := hold) (ts := s.ts) (by omega)
+    exact ⟨k, u, hu, hpos⟩
+  · have hF := i.flag
+    have := tot_ge hold hts
+    cases hf : s.g.flag with
+    | true => rfl
+    | false => rw [hf] at hF; simp at hF; omega
+
+/-- no deadlock: while some thread is unfinished, a step that is not a spin is enabled -/
+theorem no_deadlock {cfg : Cfg} {s : State} (h : Reachable cfg s) (hu : ∃ t ∈ s.ts, t.finished = false) :
+    ∃ tid, NonStutterEnabled s tid := h.inv.no_deadlock hu
+
+/-- every step that is not a spin on the flag decreases the measure (total of remaining micro-steps);
+a spin leaves the state unchanged -/
+theorem measure_decreases {cfg : Cfg} {s s' : State} (h : Reachable cfg s) {tid : Nat} {l : Label}
+    (hs : stepL s tid = some (l, s')) :
+    (l.stutter = false → measure s' < measure s) ∧ (l.stutter = true → s' = s) :=
+  stepL_measure h.inv hs
+
+/-- no thread waits forever: under any scheduler that does not starve enabled non-stutter steps,
+every thread finishes -/
+theorem fair_termination {cfg : Cfg} {s : State} (h : Reachable cfg s) (sched : Nat → Nat)
+    (hfair : Fair s sched) : ∃ n, ∀ t ∈ (runN s sched n).ts, t.finished = true := by
+  suffices H : ∀ M n, measure (runN s sched n) ≤ M → ∃ n', ∀ t ∈ (runN s sched n').ts, t.finished = true from
+    H _ 0 (Nat.le_refl _)
+  intro M
+  induction M with
+  | zero =>
+    intro n hn
+    by_cases hall : ∀ t ∈ (runN s sched n).ts, t.finished = true
+    · exact ⟨n, hall⟩
+    · exfalso
+      have hu : ∃ t ∈ (runN s sched n).ts, t.finished = false := by
+        apply Classical.byContradiction
+        intro hne
+        apply hall
+        intro t ht
+        cases hf : t.finished with
+        | true => rfl
+        | false => exact absurd ⟨t, ht, hf⟩ hne
+      obtain ⟨m, hm, hen⟩ := hfair n (no_deadlock (h.runN sched n) hu)
+      have h1 := (measure_runN_succ h sched m).2 hen
+      obtain ⟨k, rfl⟩ := Nat.exists_eq_add_of_le hm
+      have h2 := measure_runN_mono h sched n k
+      omega
+  | succ M ih =>
+    intro n hn
+    by_cases hall : ∀ t ∈ (runN s sched n).ts, t.finished = true
+    · exact ⟨n, hall⟩
+    · have hu : ∃ t ∈ (runN s sched n).ts, t.finished = false := by
+        apply Classical.byContradiction
+        intro hne
+        apply hall
+        intro t ht
+        cases hf : t.finished with
+        | true => rfl
+        | false => exact absurd ⟨t, ht, hf⟩ hne
+      obtain ⟨m, hm, hen⟩ := hfair n (no_deadlock (h.runN sched n) hu)
+      have h1 := (measure_runN_succ h sched m).2 hen
+      obtain ⟨k, rfl⟩ := Nat.exists_eq_add_of_le hm
+      have h2 := measure_runN_mono h sched n k
+      exact ih (n + k + 1) (by omega)
+
+/-- a scheduler that schedules every thread again and again does not starve enabled steps -/
+theorem fair_of_recurrent {cfg : Cfg} {s : State} (h : Reachable cfg s) (sched : Nat → Nat)
+    (hrec : ∀ n tid, tid < s.ts.length → ∃ m, n ≤ m ∧ sched m = tid) : Fair s sched := by
+  intro n ⟨tid, hen⟩
+  have hlt : tid < s.ts.length := by
+    obtain ⟨l, s', hl, _⟩ := hen
+    obtain ⟨t, _, hts, _, _⟩ := stepL_decomp hl
+    rw [← runN_length s sched n]
+    rcases Nat.lt_or_ge tid (runN s sched n).ts.length with h' | h'
+    · exact h'
+    · rw [List.getElem?_eq_none h'] at hts; cases hts
+  obtain ⟨m, hm, hsm⟩ := hrec n tid hlt
+  obtain ⟨k, rfl⟩ := Nat.exists_eq_add_of_le hm
+  clear hm
+  induction k generalizing n with
+  | zero => exact ⟨n, Nat.le_refl _, by rw [Nat.add_zero] at hsm; rw [hsm]; exact hen⟩
+  | succ k ih =>
+    by_cases hne : NonStutterEnabled (runN s sched n) (sched n)
+    · exact ⟨n, Nat.le_refl _, hne⟩
+    · have e := runN_succ_of_not_enabled h sched n hne
+      obtain ⟨m', hm', hen'⟩ := ih (n + 1) (by rw [e]; exact hen) (by rw [← hsm]; congr 1; omega)
+      exact ⟨m', by omega, hen'⟩
+
+
+/-- in particular: under round-robin scheduling every thread finishes, for any number of threads and
+any programs (no assumption left) -/
+theorem round_robin_terminates {cfg : Cfg} {s : State} (h : Reachable cfg s) (hN : 0 < s.ts.length) :
+    ∃ n, ∀ t ∈ (runN s (fun m => m % s.ts.length) n).ts, t.finished = true := by
+  apply fair_termination h
+  apply fair_of_recurrent h
+  intro n tid hlt
+  refine ⟨s.ts.length * (n + 1) + tid, ?_, ?_⟩
+  · have : n + 1 ≤ s.ts.length * (n + 1) := Nat.le_mul_of_pos_left _ hN
+    omega
+  · show (s.ts.length * (n + 1) + tid) % s.ts.length = tid
+    rw [Nat.mul_add_mod, Nat.mod_eq_of_lt hlt]
+
+/-! ## non-vacuity: concrete schedules of reset ‖ lock,use,reset ‖ lock,use,reset -/
+
+/-- thread 0 owns the block; threads 1 and 2 hold weak pointers and try to lock -/
+def exCfg : Cfg :=
+  [ ([true], [], [.reset 0]),
+    ([false], [true], [.lock 0 0, .use 0, .reset 0, .wreset 0]),
+    ([false], [true], [.lock 0 0, .use 0, .reset 0, .wreset 0]) ]
+
+/-- thread 1 locks successfully and is about to use the memory; thread 0 has started its reset;
+thread 2 spins on nothing yet -/
+def exUse : State := run (init exCfg) [1, 1, 1, 1, 1, 1, 1, 0, 0]
+
+example : Reachable exCfg exUse := (Reachable.init exCfg).run _
+-- hypotheses of `use_sees_live_memory` / `owner_keeps_memory_live` / `race_free` hold non-trivially:
+-- thread 1 is at `u`, thread 0 has just decremented `hard` (2 -> 1, not the last owner)
+example : (exUse.ts[1]?.map (·.pc)) = some (.u 0) := by decide
+example : (exUse.ts[0]?.map (·.pc)) = some (.w1 .done) := by decide
+example : exUse.g.hard = 1 ∧ exUse.g.mem = true ∧ exUse.g.clears = 0 := by decide
+
+/-- the last owner goes first; thread 1 holds the flag with its temporary bump while thread 2 spins -/
+def exSpin : State := run (init exCfg) [0, 0, 1, 1, 1, 1, 2, 2, 2, 2]
+
+example : Reachable exCfg exSpin := (Reachable.init exCfg).run _
+example : (exSpin.ts[0]?.map (·.pc)) = some (.r2a .done) := by decide
+example : (exSpin.ts[1]?.map (·.pc)) = some (.l3n 0 0) := by decide
+example : (exSpin.ts[2]?.map (·.pc)) = some (.l1 0 0) := by decide
+example : exSpin.g.flag = true ∧ exSpin.g.hard = 1 ∧ tot bump exSpin.ts = 1 ∧ tot ec exSpin.ts = 0 := by decide
+-- the spinning thread's step is a stutter step, the holder's is not
+example : (stepL exSpin 2).map (·.1.stutter) = some true := by decide
+example : (stepL exSpin 1).map (·.1.stutter) = some false := by decide
+
+/-- a complete schedule: everything is cleared and freed exactly once -/
+def exDone : State :=
+  run (init exCfg) ([0, 0, 1, 1, 1, 1, 2, 2, 2, 2] ++ List.replicate 12 0 ++ List.replicate 24 1 ++ List.replicate 24 2)
+
+example : Reachable exCfg exDone := (Reachable.init exCfg).run _
+example : (exDone.ts.all Thread.finished) = true ∧ exDone.g.clears = 1 ∧ exDone.g.freesMem = 1 ∧
+    exDone.g.freesData = 1 ∧ exDone.g.bad = 0 := by decide
+
+end Cstl.Conc
